@@ -260,6 +260,7 @@ type FuncCtx struct {
 	retCount   int
 	inlineStack []*inlineFrame // function literals being executed in place
 	sliceCopies map[types.Object]types.Object // slice header copied inside a loop from a variable declared outside it
+	pendingLabel string      // label of the statement about to be executed (consumed by the loop it labels)
 	loopDepthPos []token.Pos // positions of the loops being executed (innermost last)
 	specPos    token.Pos
 	curCallee  *calleeCtx // when evaluating a callee's contract
